@@ -30,11 +30,28 @@ use context::SchedulerContext;
 use executor::{GrevmExecutor, IncarnationExecution, ParallelTransactionExecutor};
 use metrics::ExecuteMetricsCollector;
 use ordered_commit::{CommitOutcome, CommittedPrefixEnd, OrderedCommitOutput, OrderedCommitter};
+#[cfg(grevm_verif)]
+use grevm_verif_rt::sync::{Mutex, MutexGuard};
+#[cfg(not(grevm_verif))]
 use parking_lot::{Mutex, MutexGuard};
 use revm::DatabaseRef;
 use revm_context::{BlockEnv, CfgEnv, TxEnv, result::EVMError};
 use revm_primitives::Address;
 
+#[cfg(grevm_verif)]
+use grevm_verif_rt::{
+    sync::{OnceLock, atomic::AtomicBool},
+    thread,
+};
+#[cfg(grevm_verif)]
+use std::{
+    cmp::max,
+    fmt::Debug,
+    panic::resume_unwind,
+    sync::Arc,
+    time::{Duration, Instant},
+};
+#[cfg(not(grevm_verif))]
 use std::{
     cmp::max,
     fmt::Debug,
